@@ -160,7 +160,7 @@ Apply1(hh, t, ev) ==
     [] k = "resolved" -> ObsResolved(hh, t, a, b)
     [] k = "resume"   -> ObsResume(hh, t, a)
     [] k = "freed"    -> ObsFreed(hh, a)
-    [] k = "spawn"    -> ObsSpawn(hh, b)
+    [] k = "spawn"    -> ObsSpawn(hh, t, b)
     [] k = "exit"     -> ObsExit(hh, t, IF IsPool(t) THEN 1 ELSE 0, b)
     [] k = "setmax"   -> ObsSetMax(hh, a)
     [] k = "sent"     -> ObsSent(hh, a, b)
